@@ -30,7 +30,8 @@ def in_range(x, n):
 NO_CONCEPT = ('<no-concept-branch>',)
 
 
-def tree_program(sym, n_items, roles, atoms, concepts, prefix='i'):
+def tree_program(sym, n_items, roles, atoms, concepts, prefix='i',
+                 varnames=None):
     """Decode a tree of at most n_items branches from the symbolic ints
     sym['c0'] (top concept) and sym[f'{prefix}{j}_op|r|t'].
 
@@ -40,9 +41,10 @@ def tree_program(sym, n_items, roles, atoms, concepts, prefix='i'):
     op 2: close the current node (r = t = 0)
     Concepts: NO_CONCEPT means "no '/' branch at all"; None means "(v /)".
     """
+    names = varnames or VARS
     c0 = sym['c0']
     in_range(c0, len(concepts))
-    root = (VARS[0], [])
+    root = (names[0], [])
     con = pick(c0, concepts)
     if con is not NO_CONCEPT:
         root[1].append(('/', con))
@@ -69,8 +71,8 @@ def tree_program(sym, n_items, roles, atoms, concepts, prefix='i'):
             stack[-1][1].append((role, pick(t, atoms)))
         else:
             in_range(t, len(concepts))
-            assume(nvars < len(VARS))
-            node = (VARS[nvars], [])
+            assume(nvars < len(names))
+            node = (names[nvars], [])
             nvars += 1
             con = pick(t, concepts)
             if con is not NO_CONCEPT:
